@@ -696,7 +696,9 @@ func (c *SpecCtx) quant(e *EQuant) SVal {
 		sub.vars[qv.Name] = SVal{T: T(srt, name), Ty: ty}
 		_ = guards
 	}
+	g.noDefine++
 	body := sub.boolOf(sub.eval(e.Body))
+	g.noDefine--
 	if sub.err != nil && c.err == nil {
 		c.err = sub.err
 	}
@@ -894,6 +896,11 @@ func (c *SpecCtx) callExpr(e *ECall) SVal {
 	if sf := g.eng.specs.findSpecFunc(c.pkg.PkgPath, lastDot(name)); sf != nil {
 		return c.applySpecFunc(sf, e)
 	}
+	// pure Go function or method of the program (loop-free accessors such as protobuf
+	// getters): evaluated by symbolic inlining of its real body
+	if v, ok := c.callGo(e); ok {
+		return v
+	}
 	return c.fail("%s: unknown function %q in spec", c.where, name)
 }
 
@@ -943,25 +950,83 @@ func (c *SpecCtx) applySpecFunc(sf *SpecFunc, e *ECall) SVal {
 		rty = t
 	}
 	if sf.Body != nil {
-		// defined: inline expansion (non-recursive)
-		sub := &SpecCtx{g: g, pkg: sfPkg, st: c.st, old: c.old, vars: map[string]SVal{}, where: c.where + "/" + sf.Name, act: nil}
-		for i, p := range sf.Params {
-			sub.vars[p.Name] = SVal{T: args[i].T, Ty: ptys[i]}
+		// defined: emitted once as an SMT function whose parameters are the declared
+		// ones plus one array per heap sort the body reads (the state it is applied in)
+		key := sf.PkgPath + "::" + sf.Name
+		def := g.sfDefs[key]
+		if def == nil {
+			if g.specDepth > 8 {
+				return c.fail("%s: spec function recursion too deep (%s)", c.where, sf.Name)
+			}
+			symSt := &State{pc: tTrue, cells: map[cellKey]Val{}, heaps: map[string]Term{}, ghosts: map[string]Term{}, ctr: T("Int", "0"), symHeaps: &symHeapRec{}}
+			sub := &SpecCtx{g: g, pkg: sfPkg, st: symSt, vars: map[string]SVal{}, where: "spec func " + sf.Name}
+			var formals []string
+			for i, p := range sf.Params {
+				fn := "sfp_" + mangleShort(p.Name)
+				sub.vars[p.Name] = SVal{T: T(c.sortOfTy(ptys[i]), fn), Ty: ptys[i]}
+				formals = append(formals, fmt.Sprintf("(%s %s)", fn, c.sortOfTy(ptys[i])))
+			}
+			g.specDepth++
+			g.noDefine++
+			v := sub.eval(sf.Body)
+			g.noDefine--
+			g.specDepth--
+			if sub.err != nil {
+				if c.err == nil {
+					c.err = sub.err
+				}
+				return SVal{T: tTrue, Ty: tyBoolT}
+			}
+			if v.Lit != nil {
+				v = sub.litTo(v, rty)
+			}
+			def = &sfDef{name: "sfd_" + mangle(shortPkg(sf.PkgPath)+"."+sf.Name), heapSorts: symSt.symHeaps.sorts}
+			for _, hs := range def.heapSorts {
+				es := hs
+				switch hs {
+				case "Held":
+					es = SBool
+				case "Avail":
+					es = bvSort(64)
+				}
+				formals = append(formals, fmt.Sprintf("(Hp_%s %s)", mangle(hs), arraySort(SLoc, es)))
+			}
+			if strings.Contains(v.T.S, "(forall ") || strings.Contains(v.T.S, "(exists ") {
+				// quantified body: declare the function and give its definition as an
+				// axiom triggered on applications, so that the solver unfolds it lazily
+				var sorts, names []string
+				for _, f := range formals {
+					p := splitArgs(f)
+					names = append(names, p[0])
+					sorts = append(sorts, strings.TrimSpace(strings.TrimSuffix(strings.TrimPrefix(f, "("+p[0]+" "), ")")))
+				}
+				g.header = append(g.header, fmt.Sprintf("(declare-fun %s (%s) %s)", def.name, strings.Join(sorts, " "), c.sortOfTy(rty)))
+				appl := "(" + def.name + " " + strings.Join(names, " ") + ")"
+				g.header = append(g.header, fmt.Sprintf("(assert (forall (%s) (! (= %s %s) :pattern (%s))))", strings.Join(formals, " "), appl, v.T.S, appl))
+				g.quantified = true
+			} else {
+				g.header = append(g.header, fmt.Sprintf("(define-fun %s (%s) %s %s)", def.name, strings.Join(formals, " "), c.sortOfTy(rty), v.T.S))
+			}
+			if g.sfDefs == nil {
+				g.sfDefs = map[string]*sfDef{}
+			}
+			g.sfDefs[key] = def
 		}
-		if g.specDepth > 8 {
-			return c.fail("%s: spec function recursion too deep (%s)", c.where, sf.Name)
+		var ats []Term
+		for _, a := range args {
+			ats = append(ats, a.T)
 		}
-		g.specDepth++
-		v := sub.eval(sf.Body)
-		g.specDepth--
-		if sub.err != nil && c.err == nil {
-			c.err = sub.err
+		for _, hs := range def.heapSorts {
+			h := g.heap(c.st, hs)
+			if g.noDefine == 0 {
+				h = g.define("Hsf", h)
+			}
+			ats = append(ats, h)
 		}
-		if v.Lit != nil {
-			v = sub.litTo(v, rty)
+		if len(ats) == 0 {
+			return SVal{T: T(c.sortOfTy(rty), def.name), Ty: rty}
 		}
-		v.Ty = rty
-		return v
+		return SVal{T: app(c.sortOfTy(rty), def.name, ats...), Ty: rty}
 	}
 	// uninterpreted
 	fname := "sf_" + mangle(sf.PkgPath+"."+sf.Name)
